@@ -1115,11 +1115,13 @@ fn shard(ctx: &ShardCtx) -> ShardResult {
     let cfgs = dfs_configs(ctx.tier);
     let units = dfs_units(&cfgs, ctx.tier);
     let dfs_deadline = frac(0.85);
-    for (j, u) in units.iter().enumerate() {
-        if j as u64 % ctx.nshards != ctx.shard {
+    for u in units.iter() {
+        let c = &cfgs[u.cfg];
+        // pseudo-random but fixed spread of the units over the shards (a round-robin would put
+        // the same prefix of every configuration on the same shard)
+        if hash64(format!("{}{:?}", c.key, u.prefix).as_bytes()) % ctx.nshards != ctx.shard {
             continue;
         }
-        let c = &cfgs[u.cfg];
         journal_current(ctx, &format!("{} prefix {:?}", c.key, u.prefix));
         if run_dfs_unit(&mut co, c, u, &dfs_deadline, &mut res) {
             res.count("dfs_units_completed");
